@@ -27,6 +27,10 @@ class Potassium(material.Fluid):
 
     propertyValidTemperature = {"density": ((63.2, 1250), "C")}
 
+    def setDefaultMassFracs(self):
+        """It's just potassium."""
+        self.setMassFrac("K", 1.0)
+
     def pseudoDensity(self, Tk=None, Tc=None):
         r"""
         Calculates the density of molten Potassium in g/cc.
